@@ -682,6 +682,87 @@ def replay(ctx, data):
     return False
 
 
+# ------------------------------------------------------------------ loop classification (LoopGroup.v)
+def nested_rects(rng):
+    """a laminar family of axis-parallel rectangles with pairwise distinct areas: list of (x0, y0, x1, y1), random nesting up to
+    depth 4, siblings disjoint with a margin; returned in random order"""
+    out = []
+    def fill(x0, y0, x1, y1, depth):
+        out.append((x0, y0, x1, y1))
+        if depth >= 4 or (x1 - x0) < 12 or (y1 - y0) < 6:
+            return
+        k = rng.choice([0, 1, 1, 2, 3])
+        if k == 0:
+            return
+        # split the interior (margin 1) into k vertical strips, one child per strip (possibly skipped)
+        w = (x1 - x0 - 2) // k
+        for i in range(k):
+            if rng.random() < 0.2 or w < 5:
+                continue
+            cx0 = x0 + 1 + i * w + rng.randint(0, 1)
+            cx1 = x0 + 1 + (i + 1) * w - 1 - rng.randint(0, 1)
+            cy0 = y0 + 1 + rng.randint(0, 1); cy1 = y1 - 1 - rng.randint(0, 1)
+            if cx1 - cx0 >= 2 and cy1 - cy0 >= 2:
+                fill(cx0, cy0, cx1, cy1, depth + 1)
+    for t in range(rng.randint(1, 3)):
+        W, H = rng.randint(8, 60), rng.randint(6, 30)
+        fill(100 * t, 0, 100 * t + W, H, 0)
+    # distinct areas (the implementation sorts by area)
+    areas = [(r[2] - r[0]) * (r[3] - r[1]) for r in out]
+    if len(set(areas)) != len(areas):
+        return None
+    rng.shuffle(out)
+    return out
+
+
+def loopgroup_cases(ctx, rng, n):
+    """_from_bool_poly against LoopGroup.classify: same faces, same holes, in the same order"""
+    import ladybug_geometry.boolean as pb
+    cases, meta = [], []
+    for _ in range(n):
+        rects = nested_rects(rng)
+        if rects is None or len(rects) < 2:
+            continue
+        regions = []
+        for (x0, y0, x1, y1) in rects:
+            lp = [(float(x0), float(y0)), (float(x1), float(y0)), (float(x1), float(y1)), (float(x0), float(y1))]
+            if rng.random() < 0.5: lp = lp[::-1]
+            regions.append(lp)
+        order = sorted(range(len(rects)), key=lambda i: -(rects[i][2] - rects[i][0]) * (rects[i][3] - rects[i][1]))
+        rank = {i: k for k, i in enumerate(order)}
+        def contains(a, b):
+            return a[0] < b[0] and a[1] < b[1] and a[2] > b[2] and a[3] > b[3]
+        pairs = [(rank[i], rank[j]) for i in range(len(rects)) for j in range(len(rects)) if i != j and contains(rects[i], rects[j])]
+        frame = G.rational_frame(rng); origin = G.rpt3(rng, 20)
+        pl = Plane(V3(frame[2]), P3(origin), V3(frame[0]))
+        try:
+            faces = Face3D._from_bool_poly(pb.BooleanPolygon(regions), pl, TOL)
+        except Exception as e:
+            ctx.corr_fail.append({'function': 'Face3D._from_bool_poly', 'input': repr(rects), 'result': 'raised %r' % (e,)}); continue
+        def which(loop3d):
+            xs = [pl.xyz_to_xy(p).x for p in loop3d]; ys = [pl.xyz_to_xy(p).y for p in loop3d]
+            key = (round(min(xs)), round(min(ys)), round(max(xs)), round(max(ys)))
+            for i, r in enumerate(rects):
+                if tuple(r) == key:
+                    return rank[i]
+            return -1
+        got = [[which(f.boundary)] + [which(h) for h in (f.holes or ())] for f in faces]
+        tab = core.coq_list(['(%d, %d)%%nat' % p for p in pairs])
+        G_ = core.coq_list([core.coq_list(['%d%%nat' % x for x in g]) for g in got])
+        cases.append('groups_eqb (classify (inside_of %s) %d) %s' % (tab, len(rects), G_))
+        meta.append(('Face3D._from_bool_poly vs LoopGroup.classify', rects))
+    pre = ('Definition inside_of (t : list (nat * nat)) (a b : nat) : bool := existsb (fun p => Nat.eqb (fst p) a && Nat.eqb (snd p) b) t.\n'
+           'Definition groups_eqb (a b : list (list nat)) : bool := Nat.eqb (length a) (length b) && '
+           'forallb (fun p => Nat.eqb (length (fst p)) (length (snd p)) && forallb (fun q => Nat.eqb (fst q) (snd q)) (combine (fst p) (snd p))) (combine a b).\n')
+    res = core.run_cases('C09_corr_lg', ['LoopGroup'], pre, cases,
+                         header='From Coq Require Import List Bool Arith.\nImport ListNotations.\nFrom LBG Require Import LoopGroup.\n')
+    ctx.corr_cases += len(cases)
+    for ok, m in zip(res, meta):
+        if ok is not True:
+            ctx.corr_fail.append({'function': m[0], 'input': repr(m[1:]),
+                                  'result': 'model and implementation differ' if ok is False else 'model evaluation failed'})
+
+
 def cells_coq(s):
     return core.coq_list(['(%s, %s)' % (z(i), z(j)) for i, j in sorted(s)])
 
@@ -728,3 +809,4 @@ def correspond(ctx):
         if ok is not True:
             ctx.corr_fail.append({'function': 'Face3D.coplanar_%s' % m[0], 'input': repr(m[1:]),
                                   'result': 'specification and implementation differ' if ok is False else 'specification evaluation failed'})
+    loopgroup_cases(ctx, rng, ctx.n(60, 400))
